@@ -10,6 +10,7 @@ package main
 
 import (
 	"bytes"
+	"encoding"
 	"encoding/json"
 	"fmt"
 	"net"
@@ -242,6 +243,7 @@ type vprinter struct {
 	ids    map[string]int
 	raw    bool // print raw addresses instead of normalised ids (for change detection)
 	nEmpty int
+	custom map[reflect.Type]bool // struct types whose marshaler the model has no rule for: printed as the JSON they marshal to
 }
 
 func newVPrinter(raw bool) *vprinter { return &vprinter{ids: map[string]int{}, raw: raw} }
@@ -347,9 +349,23 @@ func (p *vprinter) val(v reflect.Value) string {
 		}
 		return "(VJson " + j + ")"
 	}
+	if p.custom != nil && p.custom[t] && v.CanInterface() {
+		if b, err := json.Marshal(v.Interface()); err == nil {
+			if j, err := jsonToCoq(b); err == nil {
+				return "(VJson " + j + ")"
+			}
+		}
+	}
 	if isOpaqueNamed(t) {
 		if t == durationCfT {
 			return fmt.Sprintf("(VOpaque \"api.DurationConfig\" \"%d\")", v.Field(0).Int())
+		}
+		if v.CanInterface() {
+			if tm, ok := v.Interface().(encoding.TextMarshaler); ok {
+				if b, err := tm.MarshalText(); err == nil {
+					return "(VOpaque " + coqStr(tname(t)) + " " + coqStr(string(b)) + ")"
+				}
+			}
 		}
 		switch t.Kind() {
 		case reflect.Int, reflect.Int8, reflect.Int16, reflect.Int32, reflect.Int64:
